@@ -41,11 +41,19 @@ CLAIMS["C02"] = dict(
          "that earlier results are unaffected (stale_grid_counterexample: a time vector kept when the grid repeats breaks this); tied exactly by random histories on one real model "
          "against the fake integrator, and searched with the direct oracle by sessions on the real integrators: histories on one instance (change t0 / x0 / parameters / grid / "
          "container / method / full_output / includeOrigin / entry point, solve, restore, solve), sibling instances (permuted declarations, other values, re-definitions, twin, deepcopy) "
-         "solved interleaved, and every accepted spelling of grid / x0 / t0 / parameters; returned arrays are kept and re-read after every later call, arguments checked for writes.",
+         "solved interleaved, and every accepted spelling of grid / x0 / t0 / parameters; returned arrays are kept and re-read after every later call, arguments checked for writes "
+         "(a write alone is a side effect: tag + mismatch). The grid is an arbitrary list in every theorem; stated outright: row_at_requested_time, repeated_times_equal_rows (a time asked twice gets the flow "
+         "there twice), rows_translation_invariant (for an autonomous flow the rows do not depend on where (t0, grid) sits on the time axis), repeated_time_shortcut_counterexample. "
+         "The direct oracle places every runtime case near the origin or far from it (|t0| up to 1e8, both signs, spacing below 1e-5|t|), on horizons from t0 + 2^-30 T to 8T, on grids with repeated "
+         "times, neighbours one / a few ulps apart, a first time at or one ulp after t0, one point; models include time-dependent rates and every kind of right-hand side that is first order "
+         "in the states (linear chains, constant inflow, constant explicit ODE terms, time-dependent coefficients, symmetric / zero Jacobians), zero parameters and zero initial states; the "
+         "reference is integrated in the real time.",
     note="Trusted: Lean kernel; scipy.integrate.solve_ivp as reference; the harness fake integrator, float evaluator and generators; hand-written catalogue equations. "
          "Assumed and validated per run: scipy's ode/odeint approximate the flow (well-conditioned instances only; for the odeint entry points, which run at scipy's default tolerance 1.49e-8, "
          "the acceptance is max(1e-6, 20 x the error of scipy's own odeint on the same instance)); set_initial_value copies; `aliased` is measured on the real scipy (lsoda aliases in scipy 1.18). "
-         "solve_determ is covered for fixed (non-random) parameters only. Integration failure (IntegrationError) is outside the model.",
+         "solve_determ is covered for fixed (non-random) parameters only. Integration failure (IntegrationError) is outside the model: on grids with a zero-length or <= 4-ulp step the "
+         "scipy.integrate.ode based entry points may refuse (tagged, not judged; what they return is judged), and where scipy's own odeint fails (first output within 4 ulps of t0) pygom.integrate "
+         "passes on its uninitialised rows without looking at the success flag (observed, not judged).",
     technique="Lean 4 induction over the time grid with buffer cells (value | reference) + exact fake-integrator correspondence + independent-reference oracle")
 CLAIMS["C12"] = dict(
     text="Proved in Lean: every API route (Event with a rate, Event whose single or member transition carries the rate, bare Transition given to add_event, legacy transition=/birth_death= lists, "
@@ -230,12 +238,15 @@ CLAIMS["C06"] = dict(
          "target_param / target_state subsets in any order. Histories: the values a loss object holds over any sequence of calls are modelled (Held / step / outputs: unrollState_target, "
          "unrollState_other, earlier_outputs_unaffected, atStored_reproduces, output_depends_on_held_values_only) and scripts of calls of all eleven entry points on one or two loss objects "
          "(shared model object, user re-parameterisation, deepcopy, float and integer containers for every argument, t0 != 0) are judged against the same reference for the values held; "
-         "returned arrays are kept and re-compared, the caller's arrays must stay unchanged.",
+         "returned arrays are kept and re-compared, the caller's arrays must stay unchanged. Observation grids: replicate times, grids far from the time origin (|t0| up to 1e7, both signs), "
+         "horizons of t0 + tiny, times one ulp apart, an observation at t0, one point; models with time-dependent rates, first-order (affine) right-hand sides, one state, zero parameters / initial "
+         "states; inputs the code rejects (wrong lengths, unknown state) must stay rejected and leave the object usable.",
     note="Trusted: Lean kernel + Mathlib; harness generator and reference (scipy solve_ivp DOP853, scipy.stats); the Lean driver's `assemble` (C01) as the reference right-hand side for random "
          "models, hand-written right-hand sides for the catalogue models (SIR, SEIR, Lotka_Volterra, FitzHugh). Tolerance: 1e-6 x sum|per-entry terms| + effect of a 1e-7 relative "
          "perturbation of the prediction (pygom integrates at 1e-10). Cases whose reference trajectory leaves [0, 100] (population models) are not counted. "
          "Non-claims: Poisson / Gamma / NegBinom costs ignore the weights (as coded); a (p,1) 2-D weight column is read per row (broadcast_column_quirk); costIV with target_param "
-         "given, target_state absent and len(target_param)+nS == nP is rejected by the code as ambiguous (skipped, tagged).",
+         "given, target_state absent and len(target_param)+nS == nP is rejected by the code as ambiguous (skipped, tagged); observation grids the code refuses with an error (observation at t0, "
+         "times one ulp apart, a one-point grid with several observed states, replicate times when the trial integrate2 restarts on dopri5 or the right-hand side is identically zero) are tagged, not judged.",
     technique="Lean 4 case analysis of the shape decision tree + list/sum lemmas; model/code correspondence; independent reference integration + scipy.stats densities")
 CLAIMS["C07"] = dict(
     text="PARTIAL - assumed: integrating the forward-sensitivity (variational) system yields the derivative of the flow in parameters and initial values (hypothesis hsens; classical, "
